@@ -9,7 +9,12 @@
    docutils parsed back: raised / invalid / parts.  A part carries the rows of
    its table as parsed: the cell texts and whether a cell of the row is
    highlighted; for tables that are not laid out along bins the binding has
-   already named the row (id, 0 = not a row of the axis).
+   already named the row (id, 0 = not a row of the axis).  Columns: ds[k] = the
+   dataset that the header of column k of a per-bin table names (0: none or
+   several); heads[k] = the header of column k of an item table if it is the
+   name of a thing of the case ("" otherwise, the cells of such a column are
+   blanked), itok[id] = the <<header, text>> pairs row id has to show under
+   such headers.
    Every clause of Render.tla is evaluated on every case; the names of the
    clauses that are false are collected with the case id. *)
 EXTENDS Integers, Sequences, FiniteSets, TLC, Json, IOUtils
@@ -37,13 +42,16 @@ AbsPart(c, p) ==
         IN  [who |-> p.who, type |-> p.type, axis |-> p.axis, mark |-> p.mark,
              shown |-> shown,
              hl |-> {idOf(p.rows[k]) : k \in {k \in DOMAIN p.rows : p.rows[k].hl}},
-             rowsOK |-> /\ \A k \in DOMAIN p.rows : R!RowCellsOK(RowSet(p.rows[k]), allcells, c.tok)
+             rowsOK |-> /\ \A k \in DOMAIN p.rows : /\ R!RowCellsOK(RowSet(p.rows[k]), allcells, c.tok)
+                                                      /\ R!DsCellsOK(p.rows[k].cells, p.ds, c.tok, idOf(p.rows[k]))
                         /\ Cardinality(shown) = Len(p.rows)]
    ELSE LET shown == {p.rows[k].id : k \in DOMAIN p.rows} IN
         [who |-> p.who, type |-> p.type, axis |-> p.axis, mark |-> p.mark,
          shown |-> shown,
          hl |-> {p.rows[k].id : k \in {k \in DOMAIN p.rows : p.rows[k].hl}},
-         rowsOK |-> Cardinality(shown \ {0}) = Cardinality({k \in DOMAIN p.rows : p.rows[k].id # 0})]
+         rowsOK |-> /\ Cardinality(shown \ {0}) = Cardinality({k \in DOMAIN p.rows : p.rows[k].id # 0})
+                    /\ \A k \in DOMAIN p.rows : p.rows[k].id \in DOMAIN c.itok
+                                                    => R!NamedCellsOK(p.heads, p.rows[k].cells, c.itok[p.rows[k].id])]
 
 OutOf(c) == [raised |-> c.raised, invalid |-> c.invalid,
              parts |-> [k \in DOMAIN c.parts |-> AbsPart(c, c.parts[k])]]
